@@ -6,6 +6,7 @@ import (
 	"go/types"
 	"hash/fnv"
 	"math/big"
+	"regexp"
 	"strings"
 )
 
@@ -20,6 +21,7 @@ type EvalCtx struct {
 	bound  map[string]Val
 
 	isOld    bool
+	callee   bool                // evaluating a callee's clause: its parameter names shadow the caller's captured variables
 	skolem   bool                // skolemise positive universal quantifiers (goal position)
 	neg      bool                // current polarity is negative
 	noq      bool                // inside <==> / ite condition: no skolemisation or instantiation
@@ -255,6 +257,11 @@ func (g *FnGen) eval(e Expr, ctx *EvalCtx) Val {
 	case EIdent:
 		if v, ok := ctx.bound[x.Name]; ok {
 			return v
+		}
+		if ctx.callee {
+			if v, ok := ctx.env[x.Name]; ok {
+				return v
+			}
 		}
 		if cv, ok := g.root().cellVars[x.Name]; ok && !ctx.isOld {
 			return g.load(ctx.st, cv)
@@ -607,6 +614,14 @@ func (g *FnGen) evalCall(x ECall, ctx *EvalCtx) Val {
 			ref = "(s_base " + v.T + ")"
 		}
 		return Val{T: and(sel(g.D.get(ctx.st, liveKey), ref), not(sel(g.D.get(ctx.oldSt, liveKey), ref))), S: sortBool}
+	case "live":
+		// live(x): x exists (was allocated or handed in) in the current state
+		v := g.eval(x.Args[0], ctx)
+		ref := v.T
+		if v.S == sortSlice {
+			ref = "(s_base " + v.T + ")"
+		}
+		return Val{T: sel(g.D.get(ctx.st, liveKey), ref), S: sortBool}
 	case "typeis":
 		v := g.eval(x.Args[0], ctx)
 		tn := x.Args[1].(EStr).Val
@@ -991,8 +1006,8 @@ func (g *FnGen) obligeClause(kind, label, guard string, c Clause, ctx *EvalCtx, 
 					ic := qf.ctx
 					ic.instAt = cm
 					inst := g.evalBool(qf.e, &ic)
-					if strings.Contains(inst, "(forall ") && !strings.Contains(g.evalBoolNoInst(qf), "(forall ") {
-						continue
+					if strings.Contains(inst, "(forall ") && stripQNames(inst) == stripQNames(g.evalBoolNoInst(qf)) {
+						continue // the hint binds none of this fact's variables: nothing was instantiated
 					}
 					extras = append(extras, implies(qf.guard, inst))
 				}
@@ -1039,3 +1054,9 @@ func (g *FnGen) pkgFuncSig(name string) *types.Signature {
 	}
 	return nil
 }
+
+var qNameRe = regexp.MustCompile(`q_[A-Za-z0-9_]+![0-9]+`)
+
+// stripQNames removes the fresh-name suffixes of bound variables so that two renderings of the
+// same quantified formula compare equal.
+func stripQNames(t string) string { return qNameRe.ReplaceAllString(t, "q") }
